@@ -3,13 +3,11 @@ module verifharness
 go 1.21
 
 require (
+	github.com/emersion/go-sasl v0.0.0-20220912192320-0145f2c60ead
 	github.com/fluffle/goirc v0.0.0
 	golang.org/x/net v0.18.0
 )
 
-require (
-	github.com/emersion/go-sasl v0.0.0-20220912192320-0145f2c60ead // indirect
-	github.com/golang/mock v1.5.0 // indirect
-)
+require github.com/golang/mock v1.5.0 // indirect
 
 replace github.com/fluffle/goirc => /repo
